@@ -136,6 +136,13 @@ Proof.
   unfold parse_uint, print_dec. eapply parse_num_digits; eauto; unfold u32_max; lia.
 Qed.
 
+Lemma parse_print_dec_max vmax v : v <= vmax -> vmax <= 4294967295 ->
+  parse_uint 0 vmax (print_dec v) = NumOk v.
+Proof.
+  intros H Hm. destruct (print_num_spec 10 v) as (A & B & C); [lia|lia|].
+  unfold parse_uint, print_dec. eapply parse_num_digits; eauto; lia.
+Qed.
+
 Lemma zero_oct_spec p :
   let ds := ch_0 :: print_oct p in
   ds <> [] /\ Forall (digit_of 8) ds /\ fold_left (dstep 8) ds 0 = p.
@@ -177,11 +184,18 @@ Lemma zero_oct_no_nl p : no_nl (ch_0 :: print_oct p).
 Proof. destruct (zero_oct_spec p) as (A & B & C). eapply digits_no_nl; eauto. Qed.
 
 (* ---------- device numbers ---------- *)
-Lemma major32_bound d : major32 d <= 4294967295.
-Proof. unfold major32. pose proof (N.mod_lt (d / 256) 4096). lia. Qed.
+Lemma major32_bound d : major32 d <= dev_major_max.
+Proof. unfold major32, dev_major_max. pose proof (N.mod_lt (d / 256) 4096). lia. Qed.
 
-Lemma minor32_bound d : d < 4294967296 -> minor32 d <= 4294967295.
-Proof. intro H. unfold minor32. lia. Qed.
+Lemma minor32_bound d : d < 4294967296 -> minor32 d <= dev_minor_max.
+Proof. intro H. unfold minor32, dev_minor_max. lia. Qed.
+
+Lemma parse_print_major d : parse_uint 0 dev_major_max (print_dec (major32 d)) = NumOk (major32 d).
+Proof. apply parse_print_dec_max; [apply major32_bound|unfold dev_major_max; lia]. Qed.
+
+Lemma parse_print_minor d : d < 4294967296 ->
+  parse_uint 0 dev_minor_max (print_dec (minor32 d)) = NumOk (minor32 d).
+Proof. intro H. apply parse_print_dec_max; [apply minor32_bound; exact H|unfold dev_minor_max; lia]. Qed.
 
 Lemma makedev_major_minor d : d < 4294967296 -> makedev (major32 d) (minor32 d) = d.
 Proof. intro H. unfold makedev, major32, minor32. lia. Qed.
